@@ -360,6 +360,8 @@ func genC01(rng *Rng, thorough bool, emit func(*Scenario)) {
 		}
 	}
 	genStale("c01-stale", rng, false, emit)
+	genStale("c01-stale-refusal", rng, true, emit)
+	genTrailing("c01", rng, emit)
 	genRawHistory(rng, emit)
 	// device id: Done frames and their corruptions
 	ids := []uint16{0xA053, 0x0203, 0x0000, 0xFFFF, uint16(rng.U64())}
@@ -580,4 +582,5 @@ func genC02(rng *Rng, thorough bool, emit func(*Scenario)) {
 	}
 	genStale("c02-stale", rng, false, emit)
 	genManyAddresses(rng, emit)
+	genAppears(rng, emit)
 }
